@@ -1,10 +1,16 @@
 (* C30 — TLS handshake messages and session state round-trip and reject truncation.
    Property theorems only; each is closed by [exact] of a lemma from lib/WireTLS.v
-   or proof/C30*.v and followed by Print Assumptions. *)
+   or proof/C30*.v and followed by Print Assumptions.
+
+   msg       : a value of any of the 18 handshake message types or of the 2 session-state types
+   enc_msg   : marshal   (None = the Go code panics: a field does not fit its length prefix)
+   dec_msg   : unmarshal (None = unmarshal returns false)
+   valid     : the round-trip domain (fields the decoder insists on being non-empty are
+               non-empty; a field whose extension is not sent has its zero value; ...) *)
 From Coq Require Import List NArith Bool Arith.
 From Verif Require Import Harness WireTLS.
 From VerifModel Require Import C30.
-From VerifProof Require Import C30Proofs.
+From VerifProof Require Import C30Proofs C30ExtProofs.
 Import ListNotations.
 Open Scope N_scope.
 
@@ -23,8 +29,51 @@ Theorem C30_fmt_dec_suffix : forall f s v r, dec f s = Some (v, r) -> exists u, 
 Proof. exact dec_suffix. Qed.
 Print Assumptions C30_fmt_dec_suffix.
 
-(* part 1: every kind whose codec is a DSL format *)
-Theorem C30_roundtrip_dsl : forall m e, is_dsl (kind_of m) = true ->
+(* generic, for every extension block described by a decode table and a writer list:
+   decoding what the writers produced (followed by [tail]) rebuilds the slots *)
+Theorem C30_ext_block_roundtrip : forall tb u tail wt init st bs,
+  length init = length st ->
+  NoDup (map w_slot wt) ->
+  (forall j, ~ In j (map w_slot wt) -> sget j init = sget j st) ->
+  wok_all tb init st tail wt ->
+  enc_exts wt st = Some bs ->
+  ext_loop tb u (length (bs ++ tail)) init (bs ++ tail) = ext_loop tb u (length tail) st tail.
+Proof. exact ext_roundtrip. Qed.
+Print Assumptions C30_ext_block_roundtrip.
+
+(* every handshake message and session-state value of the round-trip domain decodes to itself *)
+Theorem C30_roundtrip : forall m e,
   valid m = true -> enc_msg m = Some e -> dec_msg (kind_of m) (has_of m) e = Some m.
-Proof. exact roundtrip_dsl. Qed.
-Print Assumptions C30_roundtrip_dsl.
+Proof. exact roundtrip_all. Qed.
+Print Assumptions C30_roundtrip.
+
+(* for every type whose encoding has no optional tail (all but the two hellos),
+   no strict prefix of a valid encoding is accepted *)
+Theorem C30_no_strict_prefix_accepted : forall m e p q,
+  no_opt_tail (kind_of m) = true -> valid m = true -> enc_msg m = Some e -> e = p ++ q -> q <> [] ->
+  dec_msg (kind_of m) (has_of m) p = None.
+Proof. exact no_strict_prefix_all. Qed.
+Print Assumptions C30_no_strict_prefix_accepted.
+
+(* the hellos: the exact set of accepted strict prefixes is the single cut after the fixed
+   part (4-byte header + encoding of the fields before the extensions), where the message
+   without extensions is decoded *)
+Theorem C30_hello_prefixes : forall m e p q,
+  no_opt_tail (kind_of m) = false -> valid m = true -> enc_msg m = Some e -> e = p ++ q -> q <> [] ->
+  dec_msg (kind_of m) (has_of m) p = None \/
+  (dec_msg (kind_of m) (has_of m) p = Some (strip_exts m) /\
+   exists b, hello_base_enc m = Some b /\ length p = (4 + length b)%nat).
+Proof. exact hello_prefixes. Qed.
+Print Assumptions C30_hello_prefixes.
+
+(* the domain is inhabited by messages that use every extension; a value outside it
+   (certificate list ending in an empty certificate) indeed does not round-trip *)
+Theorem C30_nonvacuous :
+  (valid ex_ch = true /\ is_some (enc_msg ex_ch) = true) /\
+  (valid ex_sh = true /\ is_some (enc_msg ex_sh) = true) /\
+  (valid ex_cert13 = true /\ is_some (enc_msg ex_cert13) = true) /\
+  (valid (MCertReq true [1; 64] [1027; 2052] [[48; 0]; []]) = true) /\
+  (valid (MCert [[1]; []]) = false /\
+   match enc_msg (MCert [[1]; []]) with Some e => dec_msg KCert false e | None => None end = None).
+Proof. exact examples_valid. Qed.
+Print Assumptions C30_nonvacuous.
